@@ -219,12 +219,12 @@ impl<'source, Token: Logos<'source>> Lexer<'source, Token> {
     /// Panics if adding `n` to current offset would place the `Lexer` beyond the last byte,
     /// or in the middle of an UTF-8 code point (does not apply when lexing raw `&[u8]`).
     pub fn bump(&mut self, n: usize) {
-        self.token_end += n;
-
-        assert!(
-            self.source.is_boundary(self.token_end),
-            "Invalid Lexer bump",
-        )
+        // Validate before storing: a failed bump must leave the lexer untouched (the panic can be
+        // caught), and `token_end + n` must not wrap around in release builds.
+        match self.token_end.checked_add(n) {
+            Some(end) if self.source.is_boundary(end) => self.token_end = end,
+            _ => panic!("Invalid Lexer bump"),
+        }
     }
 }
 
